@@ -6,10 +6,14 @@
 //     timeout, so the acquisition fails after the primary granted the lock;
 //   - expiry-snapshot: the holder is cut off, the lock expires on the primary, the primary commits and trims its
 //     log, the link heals and the former holder catches up through a snapshot;
-//   - expiry-frame: the same without the trimming (it catches up through ordinary transaction files).
+//   - expiry-frame: the same without the trimming (it catches up through ordinary transaction files);
+//   - failed-promotion: no halt lock at all - the replica wins the lease when the primary is demoted, but the step
+//     right after the acquisition (reading the cluster ID from the lease service) fails every time, so it gives the
+//     lease back each time and the former primary takes over again.
 package c07
 
 import (
+	"strings"
 	"context"
 	"fmt"
 	"os"
@@ -64,8 +68,8 @@ func runHalt(t *testing.T, c HaltCase) (res HaltResult) {
 				cfg.Retention = time.Second
 			}
 		}
-		cl.AddNode("P", true, nil)
-		cl.AddNode("R1", false, nil)
+		cl.AddNode("P", true, func(cfg *lab.NodeConfig) { cfg.DemoteDelay = 3 * time.Second })
+		cl.AddNode("R1", c.Halt == "failed-promotion", nil)
 		if err := cl.Start("P"); err != nil || cl.WaitPrimary(5*time.Second) == nil {
 			res.Harness = "start P"
 			return
@@ -111,10 +115,14 @@ func runHalt(t *testing.T, c HaltCase) (res HaltResult) {
 			}
 			return x.Committed
 		}
-		lockFile, err := R.M.Open("db-lock", 77)
-		if err != nil {
-			res.Harness = "open lock file: " + err.Error()
-			return
+		var lockFile *lab.File
+		if c.Halt != "failed-promotion" {
+			f, err := R.M.Open("db-lock", 77)
+			if err != nil {
+				res.Harness = "open lock file: " + err.Error()
+				return
+			}
+			lockFile = f
 		}
 		acquire := func() error {
 			ctx, cancel := context.WithTimeout(context.Background(), 5*time.Second)
@@ -126,6 +134,53 @@ func runHalt(t *testing.T, c HaltCase) (res HaltResult) {
 		imgR := img // what the replica's database must look like when the write is attempted
 		var rd *pager.Conn
 		switch c.Halt {
+		case "failed-promotion":
+			prev, failed := "", false
+			cl.Svc.Script = func(node, call string) (lab.Deviation, bool) {
+				if node != "R1" {
+					return lab.Deviation{}, false
+				}
+				was := prev
+				prev = call
+				if call == "ClusterID" && was == "Acquire" && !failed {
+					// the cluster-ID step that follows the successful acquisition fails (once)
+					failed = true
+					return lab.Deviation{Err: fmt.Errorf("injected: lease store unavailable")}, true
+				}
+				if call == "Acquire" && failed {
+					// afterwards somebody else is always faster (LiteFS retries this path without a pause)
+					return lab.Deviation{Err: litefs.ErrPrimaryExists}, true
+				}
+				return lab.Deviation{}, false
+			}
+			P.Store.Demote()
+			// R1 acquires the lease, fails the next step, gives it back; P comes back after its demotion delay
+			r1Took := func() bool {
+				for _, call := range cl.Svc.Calls() {
+					if call.Node == "R1" && call.Call == "Acquire" && strings.HasPrefix(call.Result, "ok") {
+						return true
+					}
+				}
+				return false
+			}
+			if !lab.WaitFor(30*time.Second, r1Took) {
+				var cs []string
+				for _, call := range cl.Svc.Calls() {
+					cs = append(cs, call.Node+"."+call.Call+"="+call.Result)
+				}
+				res.Harness = fmt.Sprintf("R1 never acquired the lease: %v", cs)
+				return
+			}
+			if !lab.WaitFor(60*time.Second, P.Store.IsPrimary) {
+				res.Harness = "P did not become primary again"
+				return
+			}
+			lab.Settle(2 * time.Second)
+			if !P.Store.IsPrimary() {
+				res.Harness = "P is not the primary at the time of the write"
+				return
+			}
+			res.Class = "R1-acquired-and-gave-back "
 		case "acquire-timeout":
 			rd = pager.NewConn(R.M, "db", 55, ps)
 			if err := rd.HoldRead(c.WAL); err != nil {
@@ -235,7 +290,7 @@ func haltPart(run interface {
 }, pool poolRunner) map[string]any {
 	var cases []HaltCase
 	for _, wal := range []bool{false, true} {
-		for _, k := range []string{"acquire-timeout", "expiry-snapshot", "expiry-frame"} {
+		for _, k := range []string{"acquire-timeout", "expiry-snapshot", "expiry-frame", "failed-promotion"} {
 			cases = append(cases, HaltCase{Halt: k, WAL: wal})
 		}
 	}
